@@ -167,6 +167,13 @@ def run(tier):
     cases.append(common.Case("c04-f41", ["LOGDUMP 1", "HOOK trace 1", "TBL f41.ctb " + common.hexbytes(f41)],
                              ["FWD f41.ctb 4 600 - 12 %s - -" % common.wide("ab(ab ab"), "FWD f41.ctb 4 600 - 12 %s - -" % common.wide("ab(ab) ab")],
                              {"table": "f41.ctb", "text": f41}))
+    # witness of F43 (repaired): a grouping rule stored beyond offset 0xff of the rule area, referenced by a `;name` action
+    import os as _os
+    f43 = open(_os.path.join(common.VERIF, "corpus", "C04-F43-table.txt"), encoding="utf-8").read().split("\n")
+    f43 = [l for l in f43 if l.strip()]
+    f43_op, f43_tbl = f43[-1].replace("c04w1530.ctb", "f43.ctb"), "\n".join(f43[:-1]) + "\n"
+    cases.append(common.Case("c04-f43", ["LOGDUMP 1", "HOOK trace 1", "TBL f43.ctb " + common.hexbytes(f43_tbl)], [f43_op],
+                             {"table": "f43.ctb", "text": f43_tbl}))
     wide = st.wide_cases(rng, 200 if tier == "quick" else 2500, per_table=6, back=True, exact=False, tag="c04w", budget=3000000,
                          modes_f=[0, 0, 4, 4, 1, 4 | 64, 128, 4 | 128, 64])
     for c in wide:
